@@ -63,6 +63,8 @@ def view_steps(sw, root, quick, rnd):
                 i = rnd.randrange(-w, w)
                 one_view_op(sw, path, fld, n, s, e, 'delitem', i)
                 one_view_op(sw, path, fld, n, s, e, 'setitem', i)
+                if fld not in ('keys', 'kw_defaults'):   # there None is an element value (`**` unpacking, no default)
+                    one_view_op(sw, path, fld, n, s, e, 'setitem_none', i)
                 one_view_op(sw, path, fld, n, s, e, 'remove', None)
             one_view_op(sw, path, fld, n, s, e, 'setslice', None)
 
@@ -101,7 +103,7 @@ def one_view_op(sw, path, fld, n, s, e, op, idx):
             W.append(donor_d)
         elif op == 'prepend':
             W.insert(0, donor_d)
-        elif op == 'delitem':
+        elif op in ('delitem', 'setitem_none'):
             del W[idx]
         elif op == 'setitem':
             W[idx] = donor_d
@@ -125,6 +127,8 @@ def one_view_op(sw, path, fld, n, s, e, op, idx):
             del sub[idx]
         elif op == 'setitem':
             sub[idx] = donor
+        elif op == 'setitem_none':
+            sub[idx] = None          # the delete form of item assignment
         elif op == 'remove':
             sub.remove()
         else:
@@ -168,6 +172,20 @@ def one_view_op(sw, path, fld, n, s, e, op, idx):
         sw.fail('C03', key, f'view op result differs from the Python list model: got {len(got)} elements '
                 f'{[g[:40] for g in got[:6]]}, expected {len(exp)} {[g[:40] for g in exp[:6]]}',
                 src_after=root.src[:300])
+        return
+    # the view object used for the edit is a live window: afterwards it must show exactly the edited window
+    if op in ('delitem', 'setitem', 'setitem_none', 'append', 'prepend', 'insert') and fld != '_body':
+        try:
+            win = elems(sub)
+        except Exception as ex:
+            sw.fail('C03', key + ':window', f'after the edit the view object raises {ex!r} when read')
+            return
+        if win != W:
+            sw.fail('C03', key + ':window', f'after the edit the view object shows {len(win)} elements, the list model of '
+                    f'its window has {len(W)}', src_after=root.src[:300])
+            if 'C02' in sw.props:
+                sw.fail('C02', key + ':window', f'view bounds are stale after an edit made through the view: shows {len(win)} '
+                        f'elements, a fresh view of the same window shows {len(W)}')
 
 
 def optional_steps(sw, root, quick, rnd):
@@ -228,6 +246,25 @@ def optional_steps(sw, root, quick, rnd):
                         sw.fail('C03', f'codeform@{a.__class__.__name__}.{fld}:{sw.name}:{path}:[{i}]<-{code}',
                                 f'put_slice({code!r}, {i}, {i + 1}, {fld!r}, one=True, raw="auto") depends on the form '
                                 f'of the code: { {k: v[:40] for k, v in results.items()} }')
+            # source given as one string and as a list of lines is the same code: identical outcome for every `one`
+            for i in sorted({0, len(lst) - 1}):
+                for code in ('px', '[x, y]', '(x,\n y)', 'x, y'):
+                    for one in (True, False):
+                        results = {}
+                        for form in ('str', 'lines'):
+                            r = sw.fresh()
+                            n = follow(r, path) if path else r
+                            sw.ev += 1
+                            try:
+                                n.put_slice(code if form == 'str' else code.split('\n'), i, i + 1, fld, one=one)
+                                results[form] = ast.dump(ast.parse(r.src)) if not c01_violation(r) else 'C01:' + r.src[:60]
+                            except Exception as ex:
+                                results[form] = f'refused: {ex.__class__.__name__}'
+                        sw.distinct.add(('lines_form', path, fld, i, code, one))
+                        if results['str'] != results['lines']:
+                            sw.fail('C03', f'codeform.lines@{a.__class__.__name__}.{fld}:{sw.name}:{path}:[{i}]<-{code!r}:one={one}',
+                                    f'put_slice({code!r} as str / as list of lines, {i}, {i + 1}, {fld!r}, one={one}) gives '
+                                    f'different results: { {k: v[:50] for k, v in results.items()} }')
         # kind-changing and order-violating puts through the merged virtual fields
         for vf, codes in (('_args', ['kw=1', '*st', '**dst', 'pos']), ('_bases', ['kw=1', '*st', 'pos']),
                           ('_all', ['*v', 'k=3', '**kk', 'p', 'q: int = 2', '/', '*'])):
